@@ -5,6 +5,7 @@ package main
 import (
 	"context"
 	"fmt"
+	"strings"
 
 	"verifharness/internal/out"
 	"verifharness/internal/rng"
@@ -48,6 +49,56 @@ func fixedBases() []struct {
 		"INSERT INTO wp VALUES (1, 'a', 1)", "INSERT INTO wp VALUES (1, 'b', 'txt')", "INSERT INTO wp VALUES (2, 'a', NULL)",
 		"INSERT INTO wc (id, r1, r2, up, s) VALUES (1, 1, 'a', NULL, 'x')", "INSERT INTO wc (id, r1, r2, up, s) VALUES (2, 1, 'b', 1, 'y')", "INSERT INTO wc (id, r1, r2, up, s) VALUES (7, NULL, NULL, 2, 'z')",
 	}})
+	// 3: the four option combinations over the same columns; the stored form of a value depends on the
+	// typing rules of the table (ANY with number-looking text, TEXT holding integers, INTEGER holding
+	// text, REAL holding integers, BLOB, NUMERIC)
+	opt := func(name string, strict, worowid bool) (Table, []string) {
+		t := Table{Name: name, Strict: strict, WithoutRowid: worowid, PK: []string{"id"},
+			Cols: []Col{{Name: "id", Type: "integer", NotNull: true}, {Name: "t", Type: "text"}, {Name: "i", Type: "integer"},
+				{Name: "r", Type: "real"}, {Name: "b", Type: "blob"}, {Name: "n", Type: "text", Default: "'d'"}}}
+		var rows []string
+		if strict {
+			t.Cols = append(t.Cols, Col{Name: "a", Type: "any"})
+			rows = []string{
+				"INSERT INTO " + qi(name) + " VALUES (1, '123', 7, 5.0, x'00ff', NULL, '007')",
+				"INSERT INTO " + qi(name) + " VALUES (2, '1e3', -1, 1.5, x'', 'x', '1e3')",
+				"INSERT INTO " + qi(name) + " VALUES (3, ' 12', NULL, 2.0, NULL, NULL, ' 12')",
+				"INSERT INTO " + qi(name) + " VALUES (4, '', 0, 0.0, x'31', 'y', 12)",
+				"INSERT INTO " + qi(name) + " VALUES (5, NULL, 9, NULL, x'27', 'z', 1.5)",
+				"INSERT INTO " + qi(name) + " VALUES (6, 'abc', 10, 3.0, x'00', NULL, x'3030')",
+			}
+		} else {
+			t.Cols = append(t.Cols, Col{Name: "a", Type: "numeric"})
+			rows = []string{
+				"INSERT INTO " + qi(name) + " VALUES (1, 123, 'abc', 5, x'00ff', NULL, '007')",
+				"INSERT INTO " + qi(name) + " VALUES (2, 1e3, '12', 1, 'txt', 'x', 'abc')",
+				"INSERT INTO " + qi(name) + " VALUES (3, ' 12', NULL, '2.5', NULL, NULL, ' 12x')",
+				"INSERT INTO " + qi(name) + " VALUES (4, x'3132', 1.5, 'r', 12, 'y', 12)",
+				"INSERT INTO " + qi(name) + " VALUES (5, NULL, ' 7', NULL, 1.5, 'z', 1.5)",
+				"INSERT INTO " + qi(name) + " VALUES (6, 1.0, 9007199254740993, 9007199254740993, '', NULL, x'3030')",
+			}
+		}
+		return t, rows
+	}
+	var ots []Table
+	var orows []string
+	for _, o := range []struct {
+		n    string
+		s, w bool
+	}{{"o_plain", false, false}, {"o_strict", true, false}, {"o_worowid", false, true}, {"o_both", true, true}} {
+		t, rows := opt(o.n, o.s, o.w)
+		ots = append(ots, t)
+		orows = append(orows, rows...)
+	}
+	// three generated columns, the first one refers to the last one (a forward reference, which SQLite
+	// allows) with another generated column in between: the inspector has to find each expression
+	fw := Table{Name: "o_gen", PK: []string{"id"}, Cols: []Col{{Name: "id", Type: "integer", NotNull: true}, {Name: "a", Type: "integer"},
+		{Name: "g1", Type: "integer", Gen: "`g3` + 1", GenDep: "a", GenVia: "g3"}, {Name: "g2", Type: "integer", Gen: "`a` * 2", Stored: true, GenDep: "a"},
+		{Name: "g3", Type: "integer", Gen: "`a` + 10", GenDep: "a"}, {Name: "w", Type: "text", Default: "'d'"}}}
+	ots = append(ots, fw)
+	orows = append(orows, "INSERT INTO `o_gen` (id, a, w) VALUES (1, 1, 'x')", "INSERT INTO `o_gen` (id, a, w) VALUES (2, NULL, NULL)",
+		"INSERT INTO `o_gen` (id, a, w) VALUES (3, -5, NULL)", "INSERT INTO `o_gen` (id, a, w) VALUES (4, 100, 'y')")
+	bs = append(bs, B{Schema{Tables: ots}, orows})
 	return bs
 }
 
@@ -95,6 +146,9 @@ func runExhaust(ctx context.Context, w *out.W, tier, tmp, outDir, only string) {
 				}
 			}
 		}
+		if bi == 3 {
+			continue // the option base: every edit kind on each of its four tables, no pairs
+		}
 		// pairs: on the first two tables of each base (parent, child)
 		for _, k1 := range editKinds {
 			for _, k2 := range editKinds {
@@ -109,6 +163,12 @@ func runExhaust(ctx context.Context, w *out.W, tier, tmp, outDir, only string) {
 	}
 	ms := []Mode{{Store: "mem", FK: true, Tx: "none"}, {Store: "mem", FK: true, Tx: "file"}, {Store: "mem", FK: false, Tx: "file"}}
 	runCases(ctx, w, cases, func(i int) []Mode {
+		if strings.HasPrefix(cases[i].ID, "x3-") {
+			if tier != "thorough" {
+				return []Mode{{Store: "mem", FK: true, Tx: "none"}, {Store: "file", FK: false, Tx: "file"}}
+			}
+			return []Mode{{Store: "mem", FK: true, Tx: "none"}, {Store: "mem", FK: true, Tx: "file"}, {Store: "file", FK: false, Tx: "file"}}
+		}
 		if cases[i].ID[0] == 'x' {
 			return append(ms, Mode{Store: "mem", FK: false, Tx: "none"}, Mode{Store: "file", FK: true, Tx: "file"}, Mode{Store: "mem", FK: true, Tx: "rawtx"},
 				Mode{Store: "mem", FK: true, Tx: "prefix", K: 1 + i%4}, Mode{Store: "mem", FK: i%2 == 0, Tx: "prefix", K: 3 + i%5})
